@@ -29,15 +29,97 @@ func orUpdate(p *edt.Path, e *edt.Env, ab func(string) string, field, v, t strin
 	return ""
 }
 
+// stripCopies removes the pure-copy wrappers Element.Set(x) from a rendered term: p.X.Set(&x) and
+// p.X = x store the same value.
+func stripCopies(s string) string {
+	const w = "Element.Set("
+	for {
+		i := strings.Index(s, w)
+		if i < 0 {
+			return s
+		}
+		depth, j := 1, i+len(w)
+		for ; j < len(s) && depth > 0; j++ {
+			switch s[j] {
+			case '(':
+				depth++
+			case ')':
+				depth--
+			}
+		}
+		if depth != 0 {
+			return s
+		}
+		inner := s[i+len(w) : j-1]
+		if strings.Contains(inner, ", ") && topLevelComma(inner) {
+			// Set with an explicit destination operand rendered: leave it alone
+			return s
+		}
+		s = s[:i] + inner + s[j:]
+	}
+}
+
+func topLevelComma(s string) bool {
+	depth := 0
+	for i := 0; i < len(s); i++ {
+		switch s[i] {
+		case '(':
+			depth++
+		case ')':
+			depth--
+		case ',':
+			if depth == 0 {
+				return true
+			}
+		}
+	}
+	return false
+}
+
 func finalIs(p *edt.Path, ab func(string) string, field, want string) string {
 	got := "<unchanged>"
 	if f, ok := p.Final[field]; ok {
 		got = ab(f.String())
 	}
+	if got != want && stripCopies(got) == stripCopies(want) {
+		return ""
+	}
 	if got != want {
 		return fmt.Sprintf("%s ends as %s, want %s", field, got, want)
 	}
 	return ""
+}
+
+// finalElemIs: element idx of the array at base ends as want — written element-wise (base[idx]), or
+// as part of a whole-array assignment of a composite literal (elements a keyed literal leaves out
+// are zero) or of the zero value.
+func finalElemIs(p *edt.Path, ab func(string) string, base string, idx int, want string) string {
+	key := fmt.Sprintf("%s[%d]", base, idx)
+	if _, ok := p.Final[key]; ok {
+		return finalIs(p, ab, key, want)
+	}
+	if f, ok := p.Final[base]; ok {
+		got := ""
+		switch {
+		case f.Op == "zero":
+			got = "0"
+		case f.Op == "agg":
+			got = "0"
+			pre := fmt.Sprintf("[%d]=", idx)
+			for _, a := range f.Args {
+				if a.Op == pre && len(a.Args) == 1 {
+					got = ab(a.Args[0].String())
+				}
+			}
+		}
+		if got != "" {
+			if got != want {
+				return fmt.Sprintf("%s ends as %s, want %s", key, got, want)
+			}
+			return ""
+		}
+	}
+	return finalIs(p, ab, key, want)
 }
 
 func always(e *edt.Env) edt.Tri { return edt.T }
